@@ -1261,6 +1261,15 @@ def gen_c18(rng, tier):
         meta[f"a{i}"] = {"stream": "meta", "pair": f"b{i}"}
         meta[f"b{i}"] = {"stream": "meta", "pair": f"a{i}", "second": True, "spelling": [ds, de, tl, rm]}
         i += 1
+    # known finding KF2: an end delimiter that begins with a blank, standing first on a line inside an
+    # unwrapped body, loses that blank to the block dedent
+    s_abs = ('a\n\x01\x03 ' + G.EXPIRED + ' unwrap-block\x02\nif {\n    x\n    \x01\x03 to="2100-01-01 00:00:00"\n\x02\n    y\n'
+             '    \x01/\x03\x02\n}\n\x01/\x03\x02\nb\n')
+    cases.append(G.dcase("kf2a", "\x01", "\x02", s_abs, G.Cfg("\x03", "\x04", "+00:00", G.NOW, ("x",))))
+    cases.append(G.dcase("kf2b", "#{ ", " }#", render_abs(s_abs, "#{ ", " }#", "tl", "rm"), G.Cfg("tl", "rm", "+00:00", G.NOW, ("x",))))
+    meta["kf2a"] = {"stream": "meta", "pair": "kf2b"}
+    meta["kf2b"] = {"stream": "meta", "pair": "kf2a", "second": True, "spelling": ["#{ ", " }#", "tl", "rm"],
+                    "known_class": "KF2 end delimiter beginning with a blank: first on a line inside an unwrapped body it loses that blank to the block dedent"}
     return merge(corpus_cases(), (cases, meta))
 
 
@@ -1550,7 +1559,12 @@ def differential(P, pid, cases, meta, harness, driver, tag, oracle_only=False):
         if P["nontrivial"](line, io):
             nontrivial.add(hashlib.sha1(line.split(" ", 2)[2].encode()).hexdigest())
     if P.get("pair_check"):
-        fails.extend(P["pair_check"](cases, meta, impl))
+        for f in P["pair_check"](cases, meta, impl):
+            if "known" in f:
+                if f["known"] not in known:
+                    known.append(f["known"])
+            else:
+                fails.append(f)
     if crashed and not fails:
         fails.append({"case": cases[0], "meta": {}, "why": f"harness process exited with {crashed[:3]}"})
     # known findings listed in the committed file: only the listed classes are suppressed
@@ -1737,6 +1751,9 @@ def pair_check_c18(cases, meta, impl):
         want = render_abs(unhex(ia["clean"]).decode("utf-8"), ds, de, tl, rm).encode()
         got = unhex(ib["clean"])
         if want != got:
+            if m.get("known_class"):
+                fails.append({"known": m["known_class"]})
+                continue
             fails.append({"case": by[b], "meta": m, "why": f"renamed run gives {got[:200]!r}, the rewritten output of the reference spelling is {want[:200]!r}",
                           "other_case": by[a]})
             continue
